@@ -1189,6 +1189,14 @@ func (p *BinaryProtocol) ReadBaseTypeWithDesc(desc *proto.TypeDescriptor, hasMes
 		}
 		// read repeat until sumLength equals MessageLength
 		start := p.Read
+		if start+messageLength > len(p.Buf) {
+			return nil, errInvalidDataSize
+		}
+		// ReadList/ReadMap scan same-numbered fields until the end of the buffer:
+		// bound them to this message, otherwise they swallow the parent's following fields
+		whole := p.Buf
+		p.Buf = p.Buf[:start+messageLength]
+		defer func() { p.Buf = whole }()
 		for p.Read < start+messageLength {
 			fieldNumber, wireType, tagLen, fieldTagErr := p.ConsumeTagWithoutMove()
 			if fieldTagErr != nil {
